@@ -6,7 +6,7 @@ From AF Require Import Lib.Bytes Lib.Path Lib.Ops Gen.Consts Model.MemFile Model
   Proofs.MemFsInv Proofs.MemFsList Proofs.MemFsSim.
 Local Open Scope Z_scope.
 
-Definition pvalid (t : pstate) : Prop := forall i x, nth_error (phandles t) i = Some x -> (pino x < length (pinodes t))%nat.
+Definition pvalid (t : pfs) : Prop := forall i x, nth_error (phandles t) i = Some x -> (pino x < length (pinodes t))%nat.
 
 Lemma pvalid_same t t' : phandles t' = phandles t -> (length (pinodes t) <= length (pinodes t'))%nat -> pvalid t -> pvalid t'.
 Proof. intros Eh Hl Hv i x Hx. rewrite Eh in Hx. specialize (Hv i x Hx). lia. Qed.
@@ -49,7 +49,7 @@ Proof. unfold padd. cbn. rewrite app_length. cbn. lia. Qed.
 Lemma pvalid_step s t o : Rsim s t -> pvalid t -> pvalid (fst (p_step t o)).
 Proof.
   intros R Hv. pose proof (Rsim_lookup_lt s t) as Hlt.
-  assert (Hfile : forall i (k : phandle -> bytes -> option Z -> pstate * pout),
+  assert (Hfile : forall i (k : phandle -> bytes -> option Z -> pfs * pout),
     (forall h d pm, nth_error (phandles t) i = Some h -> pvalid (fst (k h d pm))) ->
     pvalid (fst (match nth_error (phandles t) i with
                  | Some h => match pinode t (pino h) with Some (IFile d pm) => k h d pm | _ => (t, PFail COther) end
